@@ -30,6 +30,7 @@ at one check and deleted at the next, inbound traffic clears the mark. The LIVEN
   primaries, test packets and their replies, recv_error) and a termination measure over it.
 -/
 import Nebula.Lemmas.HsRaceLive
+import Nebula.Lemmas.HsManagerStep
 
 namespace Nebula.Props.C31
 open Nebula.HsRace Nebula.Lemmas.HsRace
@@ -102,6 +103,46 @@ theorem dead_tunnel_deleted_in_two_checks (me peer peer' : Side) (j : Nat) (t : 
 theorem live_tunnel_kept (me peer : Side) (j : Nat) (t : Tun) (outT : Bool) (ht : me.tunnels[j]? = some t) :
     (me.check peer j true outT).tunnels.length = me.tunnels.length ∧
     (me.check peer j true outT).pdl.contains t = false := check_alive_keeps me peer j t outT ht
+
+/-! The connection manager's traffic check in the NODE model (Model/HsManager.lean `Node.trafficCheck`, driven against
+the real connectionManager.doTrafficCheck by the `cmcheck` op of the hsmanager stream, two-node races included). -/
+
+section
+open Nebula.HsManager Nebula.Lemmas.HsManager
+
+/-- a tunnel with inbound traffic whose peer certificate is not blocklisted is never deleted by a traffic check, and its
+pendingDeletion mark is cleared — primary or not -/
+theorem live_tunnel_survives_check (n : Node) (li : Nat) (hi : HostInfo) (outT : Bool)
+    (hk : alookup li n.main.indexes = some hi) (hb : n.blocked.contains hi.certId = false) :
+    alookup li (n.trafficCheck li true outT).1.main.indexes = some hi ∧
+    (n.trafficCheck li true outT).1.pdl.contains hi.id = false := by
+  have hb' : hi.certId ∉ n.blocked := by simpa using hb
+  unfold Node.trafficCheck
+  simp only [hk]
+  simp only [Node.checkIn, Nebula.ConnMgr.trafficDecision, Nebula.ConnMgr.isInvalidCertificate, hb, hb']
+  simp only [Nebula.Lemmas.HsRace.rejectAfter_ne, Bool.not_true, Bool.false_eq_true, if_false, Bool.true_and, decide_eq_true_eq,
+    Nat.le_zero_eq, if_true]
+  have contra : ∀ {d : Nebula.ConnMgr.Decision},
+      (if (match n.main.primary (hi.vpnAddrs.headD 0) with
+            | some p => p.id == hi.id
+            | none => true) = true then Nebula.ConnMgr.Decision.tryRehandshake
+        else if Nebula.ConnMgr.shouldSwapPrimary (decide (hi.vpnAddrs.headD 0 < n.cfg.myAddrs.headD 0)) 0 true true = true
+          then Nebula.ConnMgr.Decision.swapPrimary else Nebula.ConnMgr.Decision.migrateRelays) = d →
+      d = .tryRehandshake ∨ d = .swapPrimary ∨ d = .migrateRelays := by
+    intro d h
+    repeat' split at h
+    all_goals first
+      | (left; exact h.symm)
+      | (right; left; exact h.symm)
+      | (right; right; exact h.symm)
+  split
+  all_goals (rename_i heq; have := contra heq)
+  all_goals first
+    | (simp at this; done)
+    | (split <;> simp [hk, List.mem_filter])
+    | simp [makePrimary_indexes, hk, List.mem_filter]
+
+end
 
 -- non-vacuity: the simultaneous-initiation race — both start, both first messages delivered, both replies
 -- delivered: each side holds two tunnels, each initiator tunnel mirrored on the other side, and the
